@@ -10,6 +10,14 @@ cases = []
 MAPS = {"typescript": [{}, {}, {"Url": "string"}, {"Vec<u8>": "Uint8Array"}, {"OffsetDateTime": "Date", "Foo": "FooMapped"}, {"Option<String>": "Maybe", "HashMap<String,u8>": "Dict"}],
         "kotlin": [{}, {}, {"Url": "String"}, {"OffsetDateTime": "Instant"}, {"Foo": "FooMapped", "Bar": "kotlin.Any"},
                    {"Vec<u8>": "ByteArray", "Option<String>": "Maybe"}, {"T": "Mapped", "Item": "List<Int>"}],
+        "python": [{}, {}, {}, {"Url": "AnyUrl"}, {"OffsetDateTime": "datetime"}, {"Vec<u8>": "bytes"},
+                   {"Vec<u8>": "bytes", "OffsetDateTime": "datetime", "Foo": "FooMapped"},
+                   {"Option<String>": "MaybeStr", "HashMap<String,u8>": "Dict[str, int]"},
+                   {"Foo": "bytes", "Bar": "datetime", "Item": "bytes", "User": "datetime"},
+                   {"DateTime": "datetime", "Url": "bytes", "Bytes": "bytes"},
+                   {"String": "bytes", "()": "datetime", "u8": "bytes"},
+                   {"[u8]": "bytes", "&[u8]": "bytes", "Option<u8>": "bytes", "Option<OffsetDateTime>": "datetime",
+                    "Vec<String>": "datetime", "HashMap<String,String>": "bytes"}],
         "scala": [{}, {}, {"Url": "String"}, {"OffsetDateTime": "String"}, {"Foo": "FooMapped", "Bar": "Map[String, Any]"},
                   {"Vec<u8>": "Array[Byte]", "u8": "Short", "Option<String>": "Maybe"}]}
 MULTI = "--multi" in sys.argv
@@ -23,7 +31,12 @@ for i in range(N):
     if lang == "scala":
         cfg["package"] = rng.choice(["com.example.pkg"] * 6 + ["pkg", "a.b", "trailing.", ".leading", "x..y", ".", ""])
     if not MULTI:
-        f = g.file()
+        if lang == "python" and rng.random() < 0.4:
+            # undeclared simple types that python.rs::add_imports special-cases (`Url`, `DateTime`)
+            nm = rng.sample(TYPE_WORDS, rng.randint(1, 5))
+            f = g.file(names=nm, extern_types=[e for e in rng.sample(["Url", "DateTime", "Bytes"], rng.randint(1, 3)) if e not in nm])
+        else:
+            f = g.file()
         m, r, t = requests(lang, cfg, [{"crate": "", "file_name": "out", "path": "src/lib.rs", "file": f}], g)
         cases.append((m, r, t, names_of(f)))
     else:
